@@ -220,7 +220,22 @@ def singleton(nthreads=2):
     pass
   real = sg.SingletonDecorator(Probe)
   klass = SI(lambda comp, a, k: comp.op(alloc, "new", []), "klass")
-  attrs = bind_instance(sc, real, "decorator", {"klass": klass, "instance": inst})
+  special = {"klass": klass, "instance": inst}
+  # an attribute that starts as None may come to hold a lock made at run time (a lock created on demand): a shared attribute whose values
+  # are references into a small pool of lock models
+  import threading
+  lazy = [k for k, v in vars(real).items() if v is None and k not in special]
+  if lazy:
+    pool = [sc.add(M.MRLock("lazy_lock%d" % i)) for i in range(nthreads)]
+    lock_alloc = sc.add(M.MAlloc("lock_alloc", first=sc.obj_index(pool[0])))
+    for k in lazy:
+      a = sc.add(M.MAttr("decorator." + k, NONE))
+      a.typ = ("obj", "RLock")
+      special[k] = a
+    make_lock = SI(lambda comp, a, k: comp.op(lock_alloc, "new", [], typ=("obj", "RLock")), "RLock")
+    sc.by_identity.append((threading.RLock, make_lock))
+    sc.by_identity.append((threading.Lock, make_lock))
+  attrs = bind_instance(sc, real, "decorator", special)
   dec = PyObj(sg.SingletonDecorator, attrs, "decorator")
   src = """
   def caller(dec):
@@ -240,7 +255,7 @@ def singleton(nthreads=2):
       return SK(NONE, None)
     c.call_function(SF(node=driver(src, "caller"), closure={"record": SI(record)}, qualname="scenario.caller", globs={}), [SP(dec)], {})
     sc.programs.append(c.finish())
-  sc.info = {"nthreads": nthreads, "lock_attrs": [k for k, v in attrs.items() if isinstance(v, M.MRLock)]}
+  sc.info = {"nthreads": nthreads, "lock_attrs": [k for k, v in attrs.items() if isinstance(v, M.MRLock)], "lazy_attrs": lazy}
   return sc
 
 
@@ -562,6 +577,16 @@ def registry(ops=(("append", "N1"), ("append", "N2"))):
                       [SP(robj), SK(sc.strings.code(arg), arg)], {})
     elif kind == "name_for":
       c.call_function(SF(fn=ev.SignalSource.name_for_signal, self_val=SP(robj), defcls=ev.SignalSource), [SK(arg, arg)], {})
+    elif kind == "attr":
+      # first use by attribute access: signals.<name> -> SignalSource.__getattr__(name)
+      asrc = """
+  def do_attr(reg, name):
+    r = GETATTR(name)
+    record(r)
+  """
+      getattr_sf = SF(fn=ev.SignalSource.__dict__["__getattr__"], self_val=SP(robj), defcls=ev.SignalSource)
+      c.call_function(SF(node=driver(asrc, "do_attr"), closure={"record": SI(record), "GETATTR": getattr_sf}, qualname="scenario.do_attr", globs={}),
+                      [SP(robj), SK(sc.strings.code(arg), arg)], {})
     else:
       eobj = PyObj(ev.Event, {}, "event%d" % t)
       init = ev.Event.__dict__["__init__"]
